@@ -59,6 +59,19 @@ PROPS = {
         "exhaustive": False,
         "label": "full",
     },
+    "C14": {
+        "components": ["popt"],
+        "trusted_base": [KERNEL, EXTRACT, HARNESSTB, FSNOTE,
+                         GEN + " — here: the option table gokrazyTable(), the assignment-only arms of the ParseArguments switch (other arms are fingerprinted and modelled by hand), gokrazyDefaults, the boolean accessors, ServerOptions(), and the two receiver.TransferOpts literals"],
+        "assumptions": [
+            "the option part of the theorems is a complete enumeration (inside Coq) of 4144 argument vectors: all sub-lists of 12 preserve options and all sub-lists of -c -I -n --delete after three prefixes; other argument vectors are covered by the parser correspondence only",
+            "arrangement independence of the destination is decided by the end-to-end oracle, not by a theorem",
+            "string-valued options (-e, --rsh) are parsed but their values not tracked by the model",
+        ],
+        "rule": "parser: every vocabulary token alone / followed by an argument / after --server (quick: ~300 vectors) plus random vectors of 0..6 tokens over 50 plain options, 21 argument-taking forms, 26 odd inputs (exit paths --version/--help/--info=help run in worker subprocesses and observed as process exit), compared with the model on wire view, filter rules, remaining args, ServerOptions in both roles. end to end: a tree with every entry type (files incl. empty/owned/read-only dir, symlinks incl. dangling, fifo, socket, char and block device) over a prior destination, for 8 fixed + 14 singleton + 25 (quick) / 400 (thorough) random option vectors x 5 arrangements; oracle: every arrangement completes and the destinations are identical (type, content, mode, owner, rdev; mtime of regular files under -t). non-trivial = accepted vector of >= 2 tokens",
+        "exhaustive": False,
+        "label": "full for option transport and field agreement on the enumerated vectors; arrangement independence by oracle",
+    },
     "C15": {
         "components": ["flist"],
         "trusted_base": [KERNEL, EXTRACT, HARNESSTB, GEN,
